@@ -634,6 +634,9 @@ RECIPES += [
      "srs_frf: srs_frq not returned by default when it was None"),
     ("C03", "break", R9, S, "                a[pvrb] = -fs  # / ms ... since ms == 1\n", "                a[pvrb] = fs  # / ms ... since ms == 1\n", "srs_frf: rigid oscillators respond with 2 * frf"),
     ("C03", "break", R9, S, "        pvrb = ks < 0.005  # ks/ms < .005 ... since ms == 1\n", "        pvrb = ks > 0.005  # ks/ms < .005 ... since ms == 1\n", "srs_frf: rigid / elastic test inverted"),
+    ("C03", "break", R9, S, "        el = np.any(pvel)\n", "        el = np.all(pvel)\n", "srs_frf: elastic oscillators only handled when there is no rigid one (np.all)"),
+    ("C03", "break", R9, S, "            if el:\n                a[pvel] = (fs * freqw**2) / H\n", "            elif el:\n                a[pvel] = (fs * freqw**2) / H\n",
+     "srs_frf: rigid and elastic stores made exclusive (elif)"),
     ("C03", "break", R9, S, '            resp = {"freq": ffreq, "frfs": frfs, "srs_frq": srs_frq}\n', '            resp = {"freq": frf_frq, "frfs": frfs, "srs_frq": srs_frq}\n', "srs_frf: resp['freq'] is not the analysis grid"),
     ("C03", "break", R9, S, "                frfs[:, j, :] = a.T\n", "                frfs[:, j, :] = abs(a.T)\n", "srs_frf: resp['frfs'] holds magnitudes"),
     ("C03", "break", R9, S, "                + 1j * (bs[pvel].reshape(-1, 1) @ fw)\n", "                - 1j * (bs[pvel].reshape(-1, 1) @ fw)\n", "srs_frf: transfer function conjugated (resp['frfs'])"),
